@@ -3,7 +3,10 @@ use pretty::DocAllocator;
 use typst_syntax::{ast::*, SyntaxKind, SyntaxNode};
 
 use super::{
-    layout::chain::{iterate_deep_nodes, ChainStyle, ChainStylist},
+    layout::{
+        chain::{iterate_deep_nodes, ChainStyle, ChainStylist},
+        flow::FlowItem,
+    },
     util::has_comment_children,
     ArenaDoc, Context,
 };
@@ -26,7 +29,19 @@ impl<'a> PrettyPrinter<'a> {
         ctx: Context,
         field_access: FieldAccess<'a>,
     ) -> ArenaDoc<'a> {
-        // Comments within field access are not allowed outside code mode
+        if has_comment_children(field_access.to_untyped()) {
+            // Comments within field access are only allowed in code mode. Keep them in place.
+            return self.convert_flow_like(ctx, field_access.to_untyped(), |ctx, child| {
+                if child.kind() == SyntaxKind::Dot {
+                    FlowItem::tight(self.arena.text("."))
+                } else if let Some(expr) = child.cast() {
+                    // target, field
+                    FlowItem::tight(self.convert_expr(ctx, expr))
+                } else {
+                    FlowItem::none()
+                }
+            });
+        }
         self.convert_expr(ctx, field_access.target())
             + self.arena.text(".")
             + self.convert_ident(field_access.field())
